@@ -13,9 +13,12 @@ import (
 	"github.com/TarsCloud/TarsGo/tars/util/rogger"
 
 	"verifsim/refcodec"
+	"verifsim/scen"
 	"verifsim/simnet"
 	"verifsim/simrt"
 )
+
+func init() { scen.ExtraDump = simnet.DumpState }
 
 // PrepareProcess is called outside the bubble by every full-stack scenario.
 func PrepareProcess() {
